@@ -1143,6 +1143,12 @@ def c08_molecules(run, rng, budget):
         yield m, None
     for m in molecules(run, rng, 150 * budget, max_n=14):
         yield m, None
+    # values at the ends of the ranges, coordinates that fill the fixed fields, non-zero mass-difference fields (last, so that
+    # the molecules above are rendered from the same random stream as before)
+    for m in boundary_molecules():
+        sizes(run, m)
+        yield m, {"use_codes": False, "blank_coords": False}
+        yield m, {"use_codes": False, "blank_coords": False, "mass_diff": True, "short_lines": False}
 
 
 def work_C08(run, rng, budget):
@@ -1227,6 +1233,21 @@ def big_written_molecules():
     atoms = [G._atom("C", i) for i in range(150)]
     atoms[149]["mass"] = 14
     yield G.Mol(atoms, [(i, (i + 1) % 150, 4) for i in range(150)], "big:ring150")
+    yield from boundary_molecules()
+
+
+def boundary_molecules():
+    """values at the ends of the format's ranges: charges +15 and -15, radical 3, one- and three-digit masses; coordinates that
+    fill the ten-character fixed fields of a V2000 atom line (sign, five integer digits)"""
+    atoms = [G._atom(s, i) for i, s in enumerate(["C", "N", "O", "S", "H", "Cl"])]
+    atoms[0]["chg"], atoms[1]["chg"], atoms[2]["rad"], atoms[3]["rad"] = 15, -15, 3, 1
+    atoms[4]["mass"], atoms[5]["mass"], atoms[3]["chg"] = 1, 255, -14
+    yield G.Mol(atoms, [(0, 1, 1), (1, 2, 2), (2, 3, 1), (3, 5, 1)], "boundary:ranges")
+    atoms = [G._atom(s, i) for i, s in enumerate(["C", "O", "N"])]
+    atoms[0].update(x=-1234.5678, y=12345.6789, z=-999.9999)
+    atoms[1].update(x=99999.9999, y=-9999.9999, z=0.0001)
+    atoms[2].update(x=-0.0001, y=-1.5, z=-9999.9999)
+    yield G.Mol(atoms, [(0, 1, 2), (1, 2, 1)], "boundary:wide_coordinates")
 
 
 def work_C09(run, rng, budget):
